@@ -127,27 +127,27 @@ theorem entries_are_layout_strides (bv : Bool) (src dst : MemTy) (rs rd : Rt) (l
     l.nested.map (·.map (·.ss)) = l.tS.ts ∧ l.nested.map (·.map (·.ds)) = l.tD.ts :=
   resolve_strides (transformDma_resolve h).1
 
-/-- TSL reconstruction, SOURCE: for a `strided<…>` or default-layout source, a dimension with static non-zero stride
-`s` and static non-zero inner tile bounds (any outer bound, static or `?`, any tiling depth) is addressed at
+/-- TSL reconstruction, SOURCE: for a `strided<…>` or default-layout source, a dimension with static stride
+`s` (0 included since fix F42: broadcast) and static non-zero inner tile bounds (any outer bound, static or `?`, any tiling depth) is addressed at
 `x · s · el` bytes by the resolved entries — exactly what the memref's own layout says. -/
 theorem strided_source_address (bv : Bool) (src dst : MemTy) (rs rd : Rt) (l : Lowered)
     (h : transformDma bv src dst rs rd = .ok l) (hnt : ∀ t, src.layout ≠ .tsl t)
     (strides : List (Option Nat)) (hstr : extractStrides src = some strides)
-    (d s : Nat) (hs : strides[d]? = some (some s)) (hs0 : s ≠ 0)
+    (d s : Nat) (hs : strides[d]? = some (some s))
     (es : List Entry) (hd : l.nested[d]? = some es)
     (b0 : Option Nat) (bs : List Nat) (htb : es.map (·.ss.bound) = b0 :: bs.map some) (hbs : ∀ b ∈ bs, b ≠ 0) (x : Nat) :
     (tileAddr es x).1 = x * (s * src.el) :=
-  Dma.strided_source_address h hnt hstr hs hs0 hd htb hbs x
+  Dma.strided_source_address h hnt hstr hs hd htb hbs x
 
 /-- TSL reconstruction, DESTINATION (under `EqualTileBounds`). -/
 theorem strided_dest_address (bv : Bool) (src dst : MemTy) (rs rd : Rt) (l : Lowered)
     (h : transformDma bv src dst rs rd = .ok l) (hnt : ∀ t, dst.layout ≠ .tsl t) (hETB : EqualTileBounds l)
     (strides : List (Option Nat)) (hstr : extractStrides dst = some strides)
-    (d s : Nat) (hs : strides[d]? = some (some s)) (hs0 : s ≠ 0)
+    (d s : Nat) (hs : strides[d]? = some (some s))
     (es : List Entry) (hd : l.nested[d]? = some es)
     (b0 : Option Nat) (bs : List Nat) (htb : es.map (·.ss.bound) = b0 :: bs.map some) (hbs : ∀ b ∈ bs, b ≠ 0) (x : Nat) :
     (tileAddr es x).2 = x * (s * src.el) :=
-  Dma.strided_dest_address h hnt hETB hstr hs hs0 hd htb hbs x
+  Dma.strided_dest_address h hnt hETB hstr hs hd htb hbs x
 
 /-- DYNAMIC strides, SOURCE: a `strided<…>` source whose stride of dimension `d` is `?` is addressed, by the resolved
 entries, at `x · rs.strides[d] · el` — the stride of the SOURCE's own run-time descriptor (`extract_strided_metadata`),
@@ -243,21 +243,28 @@ theorem C05_byValueDistinct_fixed :
       (i32 [some 2, some 2] (.strided [some 1, some 2] (some 0)))
       ⟨1000, [2, 2], [1, 1], 0⟩ ⟨5000, [2, 2], [1, 2], 0⟩ true true false = some true := by decide +kernel
 
-/-- `strided_source_address` at full strength, i.e. WITHOUT the clause `s ≠ 0` (`NonZeroStride`): also a broadcast
-source (static stride 0) would be addressed at `x · 0 · el = 0`. FALSE of the code as it is (D42). -/
-def strided_source_address_statement : Prop :=
-  ∀ (bv : Bool) (src dst : MemTy) (rs rd : Rt) (l : Lowered), transformDma bv src dst rs rd = .ok l →
+/-- `strided_source_address` at full strength, i.e. WITHOUT the former clause `s ≠ 0` (`NonZeroStride`): also a broadcast
+source (static stride 0) is addressed at `x · 0 · el = 0`. With fix F42 this is a THEOREM (`strided_source_address_full`);
+of the code before the fix it was false (D42, `strided_source_address_pre42_fails`). -/
+def strided_source_address_statement (tdma : Bool → MemTy → MemTy → Rt → Rt → Except Err Lowered) : Prop :=
+  ∀ (bv : Bool) (src dst : MemTy) (rs rd : Rt) (l : Lowered), tdma bv src dst rs rd = .ok l →
     (∀ t, src.layout ≠ .tsl t) → ∀ (strides : List (Option Nat)), extractStrides src = some strides →
     ∀ (d s : Nat), strides[d]? = some (some s) → ∀ (es : List Entry), l.nested[d]? = some es →
     ∀ (b0 : Option Nat) (bs : List Nat), es.map (·.ss.bound) = b0 :: bs.map some → (∀ b ∈ bs, b ≠ 0) →
     ∀ x, (tileAddr es x).1 = x * (s * src.el)
 
-/-- D42: `memref<4x4xi32, strided<[0, 1]>>` (every row is the same data) into a destination tiled `[2, 2] x [4]`:
-`TiledStride.from_stride` tests `bound and steps[0]` by truthiness, the static inner step 0 makes the OUTER tile step
-`None`, `get_step_ops` then invents a run-time value for it (16 bytes) and row 2 is read from byte 16 instead of 0. -/
-theorem strided_source_address_nonZeroStride_fails : ¬ strided_source_address_statement := by
+/-- the full statement holds of the code WITH fix F42 -/
+theorem strided_source_address_full : strided_source_address_statement transformDma :=
+  fun bv src dst rs rd l h hnt strides hstr d s hs es hd b0 bs htb hbs x =>
+    strided_source_address bv src dst rs rd l h hnt strides hstr d s hs es hd b0 bs htb hbs x
+
+/-- D42 (code BEFORE fix F42, `transformDmaPre42`): `memref<4x4xi32, strided<[0, 1]>>` (every row is the same data)
+into a destination tiled `[2, 2] x [4]`: `TiledStride.from_stride` tested `bound and steps[0]` by truthiness, the static
+inner step 0 made the OUTER tile step `None`, `get_step_ops` then invented a run-time value for it (16 bytes) and row 2
+was read from byte 16 instead of 0. -/
+theorem strided_source_address_pre42_fails : ¬ strided_source_address_statement transformDmaPre42 := by
   intro hst
-  have hw : transformDma false (i32 [some 4, some 4] (.strided [some 0, some 1] (some 0)))
+  have hw : transformDmaPre42 false (i32 [some 4, some 4] (.strided [some 0, some 1] (some 0)))
       (i32 [some 4, some 4] (.tsl ⟨[[⟨some 8, some 2⟩, ⟨some 4, some 2⟩], [⟨some 1, some 4⟩]], some 0⟩))
       ⟨1000, [4, 4], [0, 1], 0⟩ ⟨5000, [4, 4], [], 0⟩ =
       .ok ⟨⟨[[⟨none, some 2⟩, ⟨some 0, some 2⟩], [⟨some 1, some 4⟩]], some 0⟩,
@@ -270,6 +277,13 @@ theorem strided_source_address_nonZeroStride_fails : ¬ strided_source_address_s
     (some 2) [2] (by decide) (by decide) 2
   revert this
   decide +kernel
+
+/-- … and WITH fix F42 the same input satisfies the clauses of `C05_moves_partial` and is lowered correctly (the outer
+source step is the static 0, every row is read from the same bytes). -/
+theorem strided_zeroStride_fixed :
+    check false (i32 [some 4, some 4] (.strided [some 0, some 1] (some 0)))
+      (i32 [some 4, some 4] (.tsl ⟨[[⟨some 8, some 2⟩, ⟨some 4, some 2⟩], [⟨some 1, some 4⟩]], some 0⟩))
+      ⟨1000, [4, 4], [0, 1], 0⟩ ⟨5000, [4, 4], [], 0⟩ true true false = some true := by decide +kernel
 
 /-- therefore the full statement is false of the code as it is (D40 witness) -/
 theorem C05_statement_fails : ¬ C05_statement := by
